@@ -4,4 +4,7 @@ from . import contops, epnames, interface, metapaths, metaread, overlay, toc, to
 
 def build(reg):
     specs = toc.add_toc(reg) + tocreg.add_tocreg(reg) + overlay.add_writers(reg) + [x for x in interface.add_interface_raw(reg) if "C06" in x.props] + wrappers.add_destroy(reg) + [x for x in metaread.add_metaread(reg) if 'C06' in x.props] + epnames.add_stored(reg) + metapaths.add_metapaths(reg) + contops.add_contops(reg) + tocinit.add_tocinit(reg)
-    return {"verify": specs, "lemmas": [], "trusted": [toc.T_PLUGIN] + tocreg.T_TOCREG + tocreg.T_PLUGINSYS + [overlay.T1_WRITE] + contops.T_OPS + tocinit.T_TOCINIT, "assumptions": ["under contract: the in-memory schema index and the schema/package reference counting of TOCSchemas/TOCPackages paired with their raw writes and deletes; TOCLinks (register / unregister / update / __init__ / find_missing / find_broken / repair_missing), the container-level copy / move / delete and MetadorContainerTOC.__init__ are under contract against call-logging stubs; that the three indices rebuilt on reopen equal the ones before closing, and the raw tree itself, are checked bounded"]}
+    from . import oneliners
+
+    specs = specs + oneliners.add_oneliners(reg, props=("C06",))  # one- and two-line delegations, verified against what other contracts bind them to
+    return {"verify": specs, "lemmas": [], "trusted": oneliners.T_ONE + [toc.T_PLUGIN] + tocreg.T_TOCREG + tocreg.T_PLUGINSYS + [overlay.T1_WRITE] + contops.T_OPS + tocinit.T_TOCINIT, "assumptions": ["under contract: the in-memory schema index and the schema/package reference counting of TOCSchemas/TOCPackages paired with their raw writes and deletes; TOCLinks (register / unregister / update / __init__ / find_missing / find_broken / repair_missing), the container-level copy / move / delete and MetadorContainerTOC.__init__ are under contract against call-logging stubs; that the three indices rebuilt on reopen equal the ones before closing, and the raw tree itself, are checked bounded"]}
